@@ -12,7 +12,7 @@ open Resp
 /-- responses to HEAD and 1xx/204/304 responses are header-only -/
 theorem c02_header_only_iff (m : Bytes) (st : Nat) :
     headerOnly m st = true ↔ m = Req.bs "HEAD" ∨ st / 100 = 1 ∨ st = 204 ∨ st = 304 := by
-  simp [headerOnly, bodyAllowed]
+  simp [headerOnly, bodyAllowed, or_assoc]
 
 end C02
 end FwdVerif
